@@ -89,6 +89,7 @@ SEEDS = {
  "C15e": dict(property="C15", needs="a task submitted under a pickler different from the worker's own default and a result whose pickling depends on the back-end (lambda): the worker restores its previous pickler before the result is sent"),
  "C16e": dict(property="C16", needs="a read of a double-underscore attribute (__name__, __defaults__, user data, an explicitly fetched special method) on the wrapper: __getattr__ refuses to forward such names"),
  "C18e": dict(property="C18", needs="a growing resize of an idle reusable executor with an initializer that fails in the added worker: the manager is woken before the new workers are spawned and goes back to sleep without their sentinels (reverse order of the F3 repair)"),
+ "C08e": dict(property="C08", needs="the last submit of a history while one worker is busy and the other announces its idle-timeout exit: the pool top-up now runs before the task is registered, neither submit nor the manager sees a reason to re-spawn"),
  "C20b": dict(property="C20", needs="kill-type lifecycle + worker with descendants one of which vanishes during the kill: kill_process_tree returns early, the worker is neither killed nor joined (child, fd, semaphore accumulate)"),
 }
 DETECTED = json.load(open(os.path.join(ROOT, "seeded", "detected.json"))) if os.path.exists(os.path.join(ROOT, "seeded", "detected.json")) else {}
